@@ -30,6 +30,8 @@ def configs(tier):
                     if tier == "quick" and B == 3 and nc == 2: continue
                     d = 0 if kind == "ode" else (1 if (B + nc) % 2 else 2)
                     out.append(dict(kind=kind, B=B, nc=nc, w=w, d=d, extra=(B == 2), H=1 if tier == "quick" or B > 2 else 2))
+        # observations carrying an observed equation parameter that the equation reads: the dynamic term must keep the caller's value
+        out.append(dict(kind=kind, B=2, nc=2, w="vector", d=(0 if kind == "ode" else 1), extra=False, H=1, obs_theta=True))
         for B in (1, 2, 3):     # a one-component residual returned as a bare scalar (no component axis)
             out.append(dict(kind=kind, B=B, nc=1, w="scalar", d=(0 if kind == "ode" else 1), extra=False, H=1, scalar_res=True))
     return out
@@ -92,6 +94,11 @@ def build(cfg):
         loss = LossPDENonStatio(u=u, dynamic_loss=dl, loss_weights=LossWeightsPDENonStatio(dyn_loss=w0, initial_condition=jnp.array(1.25) if extra else 1.0),
                                 params=params, **kw)
         batch = PDENonStatioBatch(times_x_inside_batch=jnp.arange(1, B * (d + 1) + 1).reshape(B, d + 1) * 0.125, times_x_border_batch=None)
+    if cfg.get("obs_theta"):
+        d_in_ = {"ode": 1, "statio": d, "nonstatio": 1 + d}[kind]
+        obs = {"pinn_in": jnp.arange(1, 3 * d_in_ + 1).reshape(3, d_in_) * 0.11, "val": jnp.arange(1, 4).reshape(3, 1) * 0.25,
+               "eq_params": {"theta": jnp.arange(1, 4).reshape(3, 1) * 0.5}}
+        batch = eqx.tree_at(lambda b: b.obs_batch_dict, batch, obs, is_leaf=lambda x: x is None)
     return loss, params, batch, u
 
 
@@ -160,6 +167,7 @@ def run(cfg, R):
         terms = {k: v[()] for k, v in O["terms"].items()}
         g = [("total == sum of returned terms", eq(O["total"][()], tm.ssum(list(terms.values()))))]
         configured = {"dyn_loss"} | ({"initial_condition"} if extra and kind != "statio" else set()) | ({"norm_loss"} if extra and kind == "statio" else set())
+        if cfg.get("obs_theta"): configured |= {"observations"}
         for k, v in terms.items():
             if k not in configured:
                 g.append((f"unconfigured term {k} == 0", eq(v, const(0, "Real"))))
@@ -184,5 +192,5 @@ def run(cfg, R):
             tw.append(("dyn_loss == oracle with component weights reversed", eq(terms["dyn_loss"], mean([residual_sq_sum(A, i, wr) for i in range(B)]))))
         return tw
 
-    R.check(f"{kind}/B{B}/nc{nc}/{wk}/d{d}" + ("/extra" if extra else "") + ("/scalar-residual" if cfg.get("scalar_res") else ""), tr, goals, twin_fn=twins,
+    R.check(f"{kind}/B{B}/nc{nc}/{wk}/d{d}" + ("/extra" if extra else "") + ("/scalar-residual" if cfg.get("scalar_res") else "") + ("/obs-theta" if cfg.get("obs_theta") else ""), tr, goals, twin_fn=twins,
             key_fn=lambda prog, g: f"{kind}:{g}" + (":scalar-residual" if cfg.get("scalar_res") else ""))
